@@ -65,7 +65,7 @@ def gen_cms(rng, n, tag='c'):
             r = rng.random()
             if r < 0.55:
                 x = rng.randrange(u) if rng.random() < 0.9 else rng.randrange(1 << 64)
-                nn = rng.choice([1, 1, 2, 7, CT[ct] // 3 if big else 3, CT[ct] // 2 if big else 1])
+                nn = rng.choice([1, 1, 2, 7, 0, CT[ct] // 3 if big else 3, CT[ct] // 2 if big else 1])
                 L.append('add %d %d %d' % (i, x, nn)); L.append('obs %d' % i)
             elif r < 0.7:
                 j = rng.choice([a for a in live if a != i] or [i])
@@ -363,3 +363,32 @@ def gen_td(rng, n, tag='d', nmax=300):
 GEN['td'] = gen_td
 QUICK['td'] = 300
 THOROUGH['td'] = 6000
+
+
+# ------------------------------------------------------------------ reservoir: every draw sequence (C05)
+def lemire_word(j, rng_range):
+    """a 64-bit word that rand's gen_range decodes to j for the given range (v = ceil(j * 2^64 / range))"""
+    return (j * (1 << 64) + rng_range - 1) // rng_range
+
+def gen_res_exhaustive(configs=((1, 2), (1, 3), (1, 4), (1, 5), (2, 3), (2, 4), (2, 5), (2, 6), (3, 4), (3, 5))):
+    """for each (k, n) with k < n <= 4k+1: one case per draw sequence j_i in [0, i], i = k..n-1"""
+    import itertools
+    out, index = [], {}
+    for k, n in configs:
+        assert k < n <= 4 * k + 1
+        ranges = [range(i + 1) for i in range(k, n)]
+        for seq in itertools.product(*ranges):
+            cid = 'e%d_%d_%s' % (k, n, '_'.join(map(str, seq)))
+            L = ['new 0 %d' % k]
+            for pos in range(n):
+                if pos >= k:
+                    j = seq[pos - k]
+                    words = [lemire_word(j, pos + 1)]
+                    if pos == 4 * k:
+                        words.append(1 << 63)      # the unit draw for the first gap (u = 1/2)
+                    L.append('RW ' + ' '.join(map(str, words)))
+                L.append('add 0 %d' % pos)
+            L.append('obs 0')
+            out.append(case(cid, 'res', {'rngseed': 1}, L))
+            index[cid] = (k, n, seq)
+    return out, index
